@@ -406,6 +406,8 @@ func (s *Session) refFacts(st *State, v Val) T {
 			if _, isIface := l.Typ.Underlying().(*types.Interface); isIface {
 				x := v.L[i]
 				fs = append(fs, Imp(s.uf("isreftag", SBool, s.uf("typeof", SInt, x)), Le(s.uf("payload", SInt, x), st.Top)))
+				// interface values are determined by dynamic type and payload
+				fs = append(fs, Imp(Not(Eq(x, I(0))), Eq(x, s.uf("mkiface", SInt, s.uf("typeof", SInt, x), s.uf("payload", SInt, x)))))
 			}
 		}
 	}
